@@ -284,6 +284,20 @@ def r5(ctx):
                 odd.append("a way round without FixedBitfield::set_range under %s" % {k: v for k, v in p_.cond.items() if not k.startswith("Lt(")})
     ctx.check(P, rule, "each page receives set_range(j, min(length, PAGE - j), value)", n_set > 0 and not odd, "%d ways round call it with (j, %s, value)" % (n_set, in_page),
               "page walk of set_range: %s" % sorted(set(odd))[:3], key="C08|C08.R5|set_range|page call")
+    # a page whose bits changed and that is not yet queued is queued for the next flush
+    unq = []
+    n_q = 0
+    for p_ in rounds:
+        ch = [v for k, v in p_.cond.items() if k.startswith("set_range(")]
+        dirty = [v for k, v in p_.cond.items() if k.endswith(".dirty")]
+        if ch and ch[0] is True and (not dirty or dirty[0] is False):
+            pushes = [a_ for c_, a_, _ in p_.calls if c_.endswith("::push") and len(a_) == 2 and "unflushed" in PV.render(a_[0]) and PV.render(a_[1]) == fa.body.local_name(role["page"])]
+            n_q += 1
+            if not pushes:
+                unq.append({k: v for k, v in p_.cond.items() if not k.startswith("Le(")})
+    ctx.check(P, rule, "a page that changed is queued for the next flush", n_q > 0 and not unq, "changed && !dirty => unflushed.push(i) on %d ways round" % n_q,
+              "a way round the page loop of set_range changes a page that is not marked dirty without pushing it to `unflushed` (%s): the page is never written and the bits come back on reopen" % unq[:1],
+              key="C08|C08.R5|set_range|changed page queued")
     # the loop runs while length remains
     hd = fa.origin_operand(fa.blocks[h].term["discr"], h, len(fa.blocks[h].stmts)) if fa.blocks[h].term["k"] == "switch" else None
     conds = [c for c in (canon_cond(hd),) if hd is not None]
@@ -298,7 +312,63 @@ def r5(ctx):
     ctx.check(P, rule, "the walk continues while length remains", good, "while length > 0", "set_range's loop condition is %s" % [term_str(o)[:60] for o, _, _ in sw], key="C08|C08.R5|set_range|loop condition")
 
 
-RULES = [r1, r2, r3, r3b, r4, r5]
+def fixed_set_range(ctx, prop, rule):
+    """FixedBitfield::set_range walks the 32-bit words of the range: every way round its loop
+    restarts the bit offset at 0, moves to the next word and consumes the rest of the current
+    word (remaining -= 32 - offset); and the flag it returns — on which DynamicBitfield::set_range
+    decides whether the page is queued for the next flush — accumulates over all words: once a
+    word changed it stays true.  (A flag that only reflects the last word leaves a changed page
+    unwritten, and the cleared bits come back on reopen.)"""
+    from .. import pathval as PV
+    FSR = "bitfield::fixed::FixedBitfield::set_range"
+    fa = ctx.fn(FSR)
+    if not need(ctx, prop, rule, FSR, fa):
+        return
+    per = const_lookup(ctx, "bitfield::fixed::FIXED_BITFIELD_BITS_PER_ELEM")
+    loops = sorted(fa.loops(), key=lambda x: -len(x[1]))
+    if not need(ctx, prop, rule, "FixedBitfield::set_range: word loop", loops):
+        return
+    h, body, _ = loops[0]
+    consts = PV.loop_constants(ctx, fa, h, body)
+    paths = PV.walk(fa, h, {h}, init=consts)
+    if not need(ctx, prop, rule, "FixedBitfield::set_range: loop-free word loop body", paths):
+        return
+    rounds = [p_ for p_ in paths if p_.end == "stop"]
+    if not need(ctx, prop, rule, "FixedBitfield::set_range: ways round the word loop", rounds):
+        return
+    carried = sorted({l for p_ in rounds for l in p_.env if l not in consts and fa.body.local_name(l) and any(d[1] not in body for d in fa.body.defs.get(l, []))})
+    vals = {l: {PV.render(p_.env.get(l, PV.lf_sym(fa.body.local_name(l)))) for p_ in rounds} for l in carried}
+    nm = lambda l: fa.body.local_name(l)
+    off = [l for l in carried if vals[l] == {"0"}]
+    word = [l for l in carried if vals[l] == {"1 + %s" % nm(l)}]
+    good = len(off) == 1 and len(word) == 1
+    rem = []
+    if good:
+        rem = [l for l in carried if vals[l] == {PV.render(PV.lf_add(PV.lf_add(PV.lf_sym(nm(l)), PV.lf_sym(nm(off[0]))), PV.lf_const(per), -1))}]
+    ctx.check(prop, rule, "every way round the word loop restarts the offset, moves one word on and consumes the rest of the word", good and len(rem) == 1,
+              "offset := 0, i := i + 1, remaining := remaining - (%s - offset) on all %d ways round" % (per, len(rounds)),
+              "ways round the word loop of FixedBitfield::set_range update the loop variables as %s" % {nm(l): sorted(v)[:3] for l, v in vals.items()}, key="%s|%s|FixedBitfield::set_range|word walk" % (prop, rule))
+    # the returned flag
+    rets = [d for d in fa.body.defs.get(0, []) if d[1] in fa.succ and not d[3]["p"]]
+    flag = None
+    for d in rets:
+        if d[0] == "assign" and d[4]["k"] == "use":
+            pl = d[4]["op"].get("c") or d[4]["op"].get("m")
+            if pl and not pl["p"]:
+                flag = pl["l"]
+    if need(ctx, prop, rule, "FixedBitfield::set_range: returned flag variable", flag if flag in carried else None):
+        fv = vals[flag]
+        mono = fv <= {"1", nm(flag)} or all(v in ("1", nm(flag)) or v.startswith("BitOr(%s, " % nm(flag)) for v in fv)
+        ctx.check(prop, rule, "the returned `changed` flag accumulates over the words", mono and ("1" in fv or any(v.startswith("BitOr(") for v in fv)), "on every way round the flag keeps its value or becomes true",
+                  "FixedBitfield::set_range overwrites its returned flag on a way round the word loop (%s): it reports only whether the LAST word changed, so DynamicBitfield::set_range does not queue a page whose earlier words changed, the page is never written and the bits come back on reopen" % sorted(fv - {"1", nm(flag)})[:2],
+                  key="%s|%s|FixedBitfield::set_range|flag accumulates" % (prop, rule))
+
+
+def r6(ctx):
+    fixed_set_range(ctx, P, "C08.R6")
+
+
+RULES = [r1, r2, r3, r3b, r4, r5, r6]
 EXPLANATION = ("C08 (has / contiguous_length exact for large, sparse, reopened cores): decides that every page/bit computation uses one named unit constant consistently (mask C-1 and divisor C, "
                "32768 bits = 4096 bytes = 1024 x 32-bit words) and that a missing page reads false (R1); that the page reader uses the writer's byte stride and page-relative little-endian words (R2); "
                "that every Bitfield::update in core.rs is followed on all paths by update_contiguous_length on the same update and bitfield, clear lowers the hint to `start`, info reports the "
